@@ -122,13 +122,17 @@ mod verif_witness_c09_sweep {
         fn depth_one(search: &mut Search<CommandUciTx, SimpleHeuristic, MvvLvaMoveOrder>, uci_rx: &std::sync::mpsc::Receiver<UciTxCommand>) -> (Option<String>, Option<Score>) {
             while uci_rx.try_recv().is_ok() {}
             search.params.go = Go { depth: Some(1), ..Go::default() };
-            search.reset_for_go();
-            search.state.is_running = true;
-            let (best, _ponder) = search.best_move();
-            search.state.is_running = false;
+            search.go();                                   // the entry point the engine uses, including its own reset of the flags
             let mut score = None;
-            while let Ok(c) = uci_rx.try_recv() { if let UciTxCommand::Info { info } = c { if info.depth == Some(1) && info.score.is_some() { score = info.score; } } }
-            (best.map(|m| m.to_string()), score)
+            let mut best = None;
+            while let Ok(c) = uci_rx.try_recv() {
+                match c {
+                    UciTxCommand::Info { info } => { if info.depth == Some(1) && info.score.is_some() { score = info.score; } }
+                    UciTxCommand::BestMove { best_move, .. } => { best = best_move.map(|m| m.to_string()); }
+                    _ => {}
+                }
+            }
+            (best, score)
         }
         let mut bad = 0;
         for (fen, moves) in [
